@@ -3,7 +3,7 @@
    the ontology-level properties.  The harness builds the same world with the
    real crate and prints the same observation. *)
 From HpoV Require Import Gen.Consts Model.Base Model.Group Model.Onto Model.F32 Model.IC
-  Model.Query Model.Dump Model.Script Model.Bulk Model.Binary Model.SubOnt Model.Text.
+  Model.Query Model.Dump Model.Script Model.Bulk Model.ManyTerms Model.Binary Model.SubOnt Model.Text.
 
 Inductive world :=
 | WBuilder (s : script)
@@ -12,7 +12,10 @@ Inductive world :=
 | WSub (w : world) (root : N) (leaves : list N)
 (* the script with [count] add_gene / add_omim_disease / add_orpha_disease calls (tag 0 / 1 / 2; ids
    first, first+1, ...) between connect_all_terms and the script's own annotation calls: Model/Bulk.v *)
-| WBulk (s : script) (tag first count : N).
+| WBulk (s : script) (tag first count : N)
+(* a script of [count] new_term calls (ids first, first+stride, ...) and nothing else, built with
+   build_minimal: Model/ManyTerms.v *)
+| WMany (ver : N * N * N) (first stride count : N).
 
 (* the f32::ln oracle table travels with the case *)
 Definition winput : Type := world * list (N * N).
@@ -23,6 +26,7 @@ Fixpoint build_world (tbl : list (N * N)) (w : world) : res (list N * res onto) 
   match w with
   | WBuilder s => run_script (ic32 (table_oracle tbl)) s
   | WBulk s tag first count => run_script_bulk (ic32 (table_oracle tbl)) s tag first (N.to_nat count)
+  | WMany ver first stride count => run_many (ic32 (table_oracle tbl)) ver first stride (N.to_nat count)
   | WBytes b =>
       match decode (ic32 (table_oracle tbl)) b with
       | Panic => Panic
